@@ -98,13 +98,23 @@ fn v2_loop<'a>(
         // an error never comes with a silently changed report
         r is Err ==> final(violations)@ == old(violations)@, // [V2.post.err_leaves_report]
 //@tail
+    proof {
+        if violations@ != old(violations)@ {
+            let (i, v) = choose|i: int, v: Violation| first_dup(keys, i)
+                && violations@.dom() == old(violations)@.dom().insert(*file_path)
+                && violations@[*file_path]@ == map_get_or_empty(old(violations)@, *file_path).push(v)
+                && #[trigger] key_range_ok(v, block_with_context.block, re, content_of(block_with_context.block, file_blocks.file_content@), i)
+                && v.code@ == "keep-unique"@;
+            assert(is_dup(keys_of(re, content_of(block_with_context.block, file_blocks.file_content@)), i));
+            assert(first_dup(keys_of(re, content_of(block_with_context.block, file_blocks.file_content@)), i));
+        }
+    }
     Ok(())
 //@forlines var=ls
         invariant_except_break
-            reported is None,
             violations@ == old(violations)@,
-            forall|j: int| 0 <= j < it.index@ ==> !is_dup(keys, j), // [V2.inv.no_dup_so_far]
-            forall|k: &str| #[trigger] seen@.contains(k) <==> exists|j: int| 0 <= j < it.index@ && keys[j] == Some(k@), // [V2.inv.seen_is_keys]
+            forall|j: int| 0 <= j < it.index@ ==> !#[trigger] is_dup(keys, j), // [V2.inv.no_dup_so_far]
+            forall|k: &str| #[trigger] seen@.contains(k) <==> exists|j: int| 0 <= j < it.index@ && #[trigger] keys[j] == Some(k@), // [V2.inv.seen_is_keys]
             !(re matches Some(Err(_))) || it.index@ == 0,
         invariant
             block_wf(block_with_context.block),
@@ -114,27 +124,31 @@ fn v2_loop<'a>(
             forall|i: int| 0 <= i < ls@.len() ==> (#[trigger] ls@[i]).0 == i && key_of(re, ls@[i].1@) == keys[i]
                 && ls@[i].1@ == lines_of(content_of(block_with_context.block, file_blocks.file_content@))[i],
         ensures
-            reported is None ==> violations@ == old(violations)@ && (forall|j: int| 0 <= j < keys.len() ==> !is_dup(keys, j))
+            violations@ == old(violations)@ ==> (forall|j: int| 0 <= j < keys.len() ==> !#[trigger] is_dup(keys, j))
                 && (!(re matches Some(Err(_))) || keys.len() == 0),
-            reported matches Some(i) ==> first_dup(keys, i) && exists|v: Violation|
-                   violations@.dom() == old(violations)@.dom().insert(*file_path)
+            violations@ != old(violations)@ ==> exists|i: int, v: Violation| first_dup(keys, i) // [V2.inv.break_reports_first_dup]
+                && violations@.dom() == old(violations)@.dom().insert(*file_path)
                 && violations@[*file_path]@ == map_get_or_empty(old(violations)@, *file_path).push(v)
-                && key_range_ok(v, block_with_context.block, re, content_of(block_with_context.block, file_blocks.file_content@), i)
+                && #[trigger] key_range_ok(v, block_with_context.block, re, content_of(block_with_context.block, file_blocks.file_content@), i)
                 && v.code@ == "keep-unique"@,
 //@edit rule=ghost before=<<let mut seen>>
     let ghost keys = keys_of(re, content_of(block_with_context.block, file_blocks.file_content@));
-    let ghost mut reported: Option<int> = None;
 //@macro rule=E1 name=anyhow to=<<anyhow::verif_err()>>
-//@edit rule=ghost before=<<let (violation_line_number, character_offset)>>
+//@edit rule=ghost before=<<let (violation_line_number, character_offset)>> optional=1
                         assert(is_dup(keys, line_number as int));
-//@edit rule=ghost before=<<if let Some((matched_line, line_range)) = line_match>>
+//@edit rule=ghost before=<<if let Some((matched_line, line_range)) = line_match>> optional=1
                     assert(line_number == it.index@);
                     assert((match line_match { Some(p) => Some((p.0@, p.1@.start as int, p.1@.end as int)), None => None }) == key_info(re, line@)); // [V2.assert.key_extraction]
 //@letchain rule=E8 find=<<if let Some((matched_line, line_range)) = line_match &&>>
-//@edit rule=E5 find=<<violations.entry(file_path.clone()).or_insert_with(Vec::new).push(>>
+//@edit rule=E5 find=<<violations.entry(file_path.clone()).or_insert_with(Vec::new).push(>> optional=1
 verif_map_push(violations, file_path.clone(),
-//@edit rule=ghost after=<<line_character_end, )?);>>
-                        proof { reported = Some(line_number as int); }
+//@edit rule=ghost before=<<break;>> optional=1
+                        proof {
+                            let v = violations@[*file_path]@.last();
+                            assert(violations@[*file_path]@.len() == map_get_or_empty(old(violations)@, *file_path).len() + 1);
+                            assert(violations@[*file_path]@ == map_get_or_empty(old(violations)@, *file_path).push(v));
+                            assert(key_range_ok(v, block_with_context.block, re, content_of(block_with_context.block, file_blocks.file_content@), line_number as int));
+                        }
 //@edit rule=E9 find=<<$a.as_ptr() as usize - $b.as_ptr() as usize>> count=all optional=1
 verif_offset_in($a, $b)
 //@closure rule=E12 find=<<|m|>> params=<<|m: regex::Match<'a>|>> ret=<<res: (&'a str, RangeInclusive<usize>)>>
